@@ -56,7 +56,7 @@ Lemma analyze_stats_greater : cfg_alternative cfg = Greater ->
     (tm / cm - 1) (Fin (tm / cm * exp (ls * isf ld cl) - 1)) PInf
     (sf d ((tm - cm) / s)) ((tm - cm) / s).
 Proof.
-  intros Ha. unfold rom_analyze_stats. rewrite !scale_and_distr_none, Ha. reflexivity.
+  intros Ha. unfold rom_analyze_stats. rewrite !scale_and_distr_none, Ha. cbn [alternative_eqb]. reflexivity.
 Qed.
 Lemma analyze_stats_less : cfg_alternative cfg = Less ->
   rom_analyze_stats fam cfg cm cv cn tm tv tn =
@@ -65,7 +65,7 @@ Lemma analyze_stats_less : cfg_alternative cfg = Less ->
     (tm / cm - 1) NInf (Fin (tm / cm * exp (ls * ppf ld cl) - 1))
     (cdf d ((tm - cm) / s)) ((tm - cm) / s).
 Proof.
-  intros Ha. unfold rom_analyze_stats. rewrite !scale_and_distr_none, Ha. reflexivity.
+  intros Ha. unfold rom_analyze_stats. rewrite !scale_and_distr_none, Ha. cbn [alternative_eqb]. reflexivity.
 Qed.
 Lemma analyze_stats_two_sided : cfg_alternative cfg = TwoSided ->
   rom_analyze_stats fam cfg cm cv cn tm tv tn =
@@ -75,7 +75,7 @@ Lemma analyze_stats_two_sided : cfg_alternative cfg = TwoSided ->
     (Fin (tm / cm / exp (ls * ppf ld ((1 + cl) / 2)) - 1)) (Fin (tm / cm * exp (ls * ppf ld ((1 + cl) / 2)) - 1))
     (2 * sf d (Rabs ((tm - cm) / s))) ((tm - cm) / s).
 Proof.
-  intros Ha. unfold rom_analyze_stats. rewrite !scale_and_distr_none, Ha. reflexivity.
+  intros Ha. unfold rom_analyze_stats. rewrite !scale_and_distr_none, Ha. cbn [alternative_eqb]. reflexivity.
 Qed.
 End Stats.
 
